@@ -357,7 +357,8 @@ def from_grammar_order(repo, res, rule="MPT"):
     env = envs.get(id(site))
     e = A.resolve(P.ctor_field(site, "expr"), env)
     passes = ["propagate_fallback_levels", "collapse_subwords", "resolve_nonterminals", "specialize_nonterminals", "distribute_descriptions"]
-    nest = call_nest(e, set(passes))
+    # a pass may be called through its thin wrapper `X` or directly as its worker `do_X`
+    nest = [n[3:] if n.startswith("do_") and n[3:] in passes else n for n in call_nest(e, set(passes) | {"do_" + x for x in passes})]
     res.check(nest == passes, rule, f"{rule}:{fq}:expr-lineage",
               "ValidGrammar.expr = " + " <- ".join(nest) + (" (as required)" if nest == passes else f"; required {' <- '.join(passes)}"),
               f"{fn.file}:{site['l']}")
